@@ -4,6 +4,7 @@ import (
 	"bytes"
 	"fmt"
 	"io"
+	"reflect"
 	"strings"
 
 	"github.com/gregoryv/mq"
@@ -22,8 +23,9 @@ func init() {
 		ID:    "C14",
 		Title: "Decoded packets own their memory and packets do not interfere",
 		Level: "model_checking",
-		Rule: "explicit enumeration of operation histories over a pool of up to three real packets and one reusable read buffer: decode frame f (one rich frame per type, 16 incl. type 0) through ReadPacket from the buffer, or through UnmarshalBinary(buf[hdr:n]) on the type's zero value or on a value made by the type's constructor, or into packet #0 of the pool when it has the frame's type (a packet reused as decode destination); scribble (overwrite the buffer with ff); encode packet i; String+Dump packet i; call one of four setters/adders on packet i. " +
+		Rule: "explicit enumeration of operation histories over a pool of up to three real packets and one reusable read buffer: decode frame f (one rich frame per type, 16 incl. type 0) through ReadPacket from the buffer, or through UnmarshalBinary(buf[hdr:n]) on the type's zero value or on a value made by the type's constructor, or into packet #0 or #1 of the pool when it has the frame's type (a packet reused as decode destination); forward (a new packet of the same type made by the constructor, every string and byte-slice field copied over with SetX(p.X()), joins the pool); scribble (overwrite the buffer with ff); encode packet i; String+Dump packet i; call one of four setters/adders on packet i. " +
 			"All sequences of length <=3 (quick) / <=4 (thorough). Invariants in the state reached by every sequence: (1) the full observation (accessors, String, re-encoding) of every packet not targeted by the last operation equals the snapshot taken when it was last targeted; (2) a freshly decoded packet equals the reference decode of the same frame in a pristine process (history independence); (3) whenever the deep digest of the package-level variables differs from its initial value, packets freshly built with the constructors must still encode and render exactly as in a pristine process; (4) alias analysis of the concrete object graphs: no mutable memory region shared between two pool packets or between a packet and the caller's buffer. " +
+			"Cache pressure: for 9 packet types, N in {40,300,1200} (thorough also 5000, 70000) frames with pairwise distinct contents in every string slot are decoded in turn, again in the same order and again in reverse; every decode must carry the values the specification decoder reads from the same bytes. " +
 			"states = sequences executed (each replayed on fresh objects), transitions = operations executed; distinct_nontrivial = distinct sequences containing at least one decode followed by another operation.",
 		Assumptions: []string{
 			"string data is immutable in Go and may be shared; only mutable regions (slice backing arrays, pointees, maps) count as aliasing",
@@ -94,6 +96,14 @@ func c14Frames() *poolFrames {
 	altp := minimalPacket(3)
 	altp.Topic, altp.Payload = []byte("q"), []byte("Z")
 	add(mustEncode(altp, spec.Form{}))
+	altq := minimalPacket(3)
+	altq.Topic, altq.Payload = []byte("other"), []byte("Qb/#bXY")
+	altq.Props = []spec.Prop{{ID: 0x09, B: []byte("corr-07")}}
+	add(mustEncode(altq, spec.Form{}))
+	altr := minimalPacket(3)
+	altr.Topic, altr.Payload = []byte("third"), []byte("R1234")
+	altr.Props = []spec.Prop{{ID: 0x09, B: []byte("c-5")}}
+	add(mustEncode(altr, spec.Form{}))
 	// frames the decoder accepts although they carry a property foreign to
 	// the packet (here: a subscription identifier), a state-carrying decoder
 	// may route it to a packet decoded earlier
@@ -152,8 +162,16 @@ func c14Alphabet(pf *poolFrames) []poolOp {
 	}
 	for f := range pf.frames {
 		if pf.types[f] == 1 || pf.types[f] == 3 || pf.types[f] == 9 {
-			ops = append(ops, poolOp{Name: fmt.Sprintf("unmarshalInto(#0,frame%d:%s)", f, bind.TypeNames[pf.types[f]]), Kind: 'i', Frame: f, Slot: 0})
+			for slot := 0; slot < 2; slot++ {
+				ops = append(ops, poolOp{Name: fmt.Sprintf("unmarshalInto(#%d,frame%d:%s)", slot, f, bind.TypeNames[pf.types[f]]), Kind: 'i', Frame: f, Slot: slot})
+			}
 		}
+	}
+	// forward(#i): a new packet of the same type made by the constructor,
+	// every byte-slice and string field copied over with SetX(p.X()) - the
+	// way a bridge re-publishes what it received; the new packet joins the pool
+	for s := 0; s < 2; s++ {
+		ops = append(ops, poolOp{Name: fmt.Sprintf("forward(#%d)", s), Kind: 'f', Slot: s})
 	}
 	ops = append(ops, poolOp{Name: "scribble", Kind: 's'})
 	for s := 0; s < 3; s++ {
@@ -184,6 +202,7 @@ func c14Run(pf *poolFrames, ops []poolOp, seq []int, globals0 digest.Sum) (f *co
 		return &core.Finding{Class: class, Detail: fmt.Sprintf("[%s]: %s", names(), what)}
 	}
 	target := -1
+	shared := false // a forward op made two packets share memory on the caller's request
 	for step, oi := range seq {
 		o := ops[oi]
 		target = -1
@@ -236,6 +255,23 @@ func c14Run(pf *poolFrames, ops []poolOp, seq []int, globals0 digest.Sum) (f *co
 			}
 			target = o.Slot
 			snap[o.Slot] = c14Obs(p)
+		case 'f':
+			if o.Slot >= len(pool) || len(pool) == 3 {
+				return nil, false
+			}
+			src := pool[o.Slot]
+			if _, ok := src.(*mq.Undefined); ok {
+				return nil, false
+			}
+			var np mq.Packet
+			res := guarded(0, func() { np = forwardCopy(src) })
+			if res.Panic != "" || np == nil {
+				return nil, false
+			}
+			shared = true
+			pool = append(pool, np)
+			snap = append(snap, c14Obs(np))
+			target = len(pool) - 1
 		case 's':
 			for i := range buf {
 				buf[i] = 0xff
@@ -293,7 +329,11 @@ func c14Run(pf *poolFrames, ops []poolOp, seq []int, globals0 digest.Sum) (f *co
 			}
 		}
 	}
-	// (4) aliasing between packets and with the caller's buffer
+	// (4) aliasing between packets and with the caller's buffer (not after a
+	// forward op: there the caller handed one packet's slices to another)
+	if shared {
+		return nil, true
+	}
 	roots := make([]any, 0, len(pool)+1)
 	for _, p := range pool {
 		roots = append(roots, p)
@@ -310,7 +350,154 @@ func c14Run(pf *poolFrames, ops []poolOp, seq []int, globals0 digest.Sum) (f *co
 	return nil, true
 }
 
+// forwardCopy builds a new packet of p's type with the constructor and
+// copies every field that has a Set<Name>(string|[]byte) setter and a
+// <Name>() accessor of the same type.
+func forwardCopy(p mq.Packet) mq.Packet {
+	t := bind.TypeOf(p)
+	if t == 0 {
+		return nil
+	}
+	np := bind.New(t)
+	sv, dv := reflect.ValueOf(p), reflect.ValueOf(np)
+	for i := 0; i < dv.NumMethod(); i++ {
+		name := dv.Type().Method(i).Name
+		if !strings.HasPrefix(name, "Set") {
+			continue
+		}
+		set := dv.Method(i)
+		if set.Type().NumIn() != 1 {
+			continue
+		}
+		get := sv.MethodByName(strings.TrimPrefix(name, "Set"))
+		if !get.IsValid() || get.Type().NumIn() != 0 || get.Type().NumOut() != 1 || get.Type().Out(0) != set.Type().In(0) {
+			continue
+		}
+		k := set.Type().In(0).Kind()
+		if k != reflect.String && !(k == reflect.Slice && set.Type().In(0).Elem().Kind() == reflect.Uint8) {
+			continue
+		}
+		set.Call(get.Call(nil))
+	}
+	return np
+}
+
+// ---- cache pressure: long histories of distinct contents ------------------
+//
+// A decoder that remembers contents between calls (interned keys, a topic
+// cache, pooled buffers) is only wrong once its memory is under pressure.
+// N frames with pairwise distinct contents in every string slot are decoded,
+// then decoded again in the same and in reverse order; every decode is judged
+// against the values the specification decoder reads from the same bytes.
+
+func c14PressureFrame(t byte, i int) []byte {
+	tag := func(prefix string) []byte { return []byte(fmt.Sprintf("%s%d", prefix, i)) }
+	p := minimalPacket(t)
+	switch t {
+	case 1:
+		p.ClientID = tag("c")
+		p.HasUser, p.User = true, tag("u")
+		p.Will = &spec.Will{Topic: tag("w/"), Payload: tag("p"), Props: []spec.Prop{{ID: 0x26, B: tag("wk"), V: tag("wv")}, {ID: 0x03, B: tag("ct")}}}
+		p.Props = []spec.Prop{{ID: 0x26, B: tag("k"), V: tag("v")}, {ID: 0x15, B: tag("m")}}
+	case 2:
+		p.Props = []spec.Prop{{ID: 0x12, B: tag("a")}, {ID: 0x1f, B: tag("r")}, {ID: 0x26, B: tag("k"), V: tag("v")}}
+	case 3:
+		p.Topic, p.Payload = tag("t/"), tag("pl")
+		p.Props = []spec.Prop{{ID: 0x08, B: tag("rt")}, {ID: 0x26, B: tag("k"), V: tag("v")}, {ID: 0x26, B: tag("k"), V: tag("x")}}
+	case 8:
+		p.Filters = []spec.Filter{{Topic: tag("f/"), Opts: byte(i % 3)}, {Topic: tag("g/"), Opts: 1}}
+		p.Props = []spec.Prop{{ID: 0x26, B: tag("k"), V: tag("v")}}
+	case 10:
+		p.Filters = []spec.Filter{{Topic: tag("f/")}}
+	default:
+		p.Props = []spec.Prop{{ID: 0x1f, B: tag("r")}, {ID: 0x26, B: tag("k"), V: tag("v")}}
+	}
+	return mustEncode(p, spec.Form{})
+}
+
+var c14PressureTypes = []byte{1, 2, 3, 4, 8, 9, 10, 14, 15}
+
+// c14Pressure runs the history for one type and n distinct frames; it
+// returns the first disagreement.
+func c14Pressure(t byte, n int) (*core.Finding, int64) {
+	resetGlobals()
+	frames := make([][]byte, n)
+	for i := range frames {
+		frames[i] = c14PressureFrame(t, i)
+	}
+	calls := int64(0)
+	check := func(pass string, i int) *core.Finding {
+		calls++
+		fr := frames[i]
+		want, _, m, derr := spec.Decode(fr, true)
+		if derr != nil || m != len(fr) {
+			return nil
+		}
+		mk := func(class, what string) *core.Finding {
+			return &core.Finding{Class: "cache-pressure/" + class + "/" + bind.TypeNames[t],
+				Detail: fmt.Sprintf("%d %s frames with pairwise distinct contents decoded in turn; %s, frame #%d (%s): %s", n, bind.TypeNames[t], pass, i, abbrevHex(fr), what)}
+		}
+		q, err, res := readPacket(bytes.NewReader(fr), stepBudget(len(fr)))
+		if res.Panic != "" || res.Budget || err != nil || q == nil {
+			return mk("decode-fails", fmt.Sprintf("decode failed: %v %s", err, res.Panic))
+		}
+		obs, notes := bind.Observe(q)
+		diff := append(spec.Diff(spec.Normalise(expectedOf(want)), spec.Normalise(obs)), notes...)
+		if len(diff) > 0 {
+			return mk("history-dependent-decode", "the packet does not carry the values of its frame: "+strings.Join(clipList(diff, 3), "; "))
+		}
+		return nil
+	}
+	for i := 0; i < n; i++ {
+		if f := check("first pass", i); f != nil {
+			return f, calls
+		}
+	}
+	for i := 0; i < n; i++ {
+		if f := check("second pass (same order)", i); f != nil {
+			return f, calls
+		}
+	}
+	for i := n - 1; i >= 0; i-- {
+		if f := check("third pass (reverse order)", i); f != nil {
+			return f, calls
+		}
+	}
+	return nil, calls
+}
+
 func runC14(x *core.Ctx) {
+	// cache pressure: histories of 3 x N decodes, N in {40, 300, 1200} (thorough also 5000, 70000)
+	ns := []int{40, 300, 1200}
+	if x.Thorough() {
+		ns = append(ns, 5000, 70000)
+	}
+	for _, t := range c14PressureTypes {
+		for _, n := range ns {
+			if !x.Mine() {
+				continue
+			}
+			t, n := t, n
+			f, calls := c14Pressure(t, n)
+			x.EvalN("cache-pressure", calls)
+			x.R.States += calls
+			x.R.Transitions += calls
+			x.R.Traces++
+			x.Distinct(core.Hash([]byte(fmt.Sprintf("pressure%d/%d", t, n))))
+			if f != nil {
+				x.Report(f, func() core.Case {
+					return core.Case{Harness: "c14.pressure", Params: map[string]any{"type": int(t), "n": n}}
+				}, func() *core.Finding { g, _ := c14Pressure(t, n); return g })
+			}
+		}
+	}
+	x.Sample("cache-pressure", 1, func() any {
+		return map[string]any{"frame#7": hexOf(c14PressureFrame(3, 7)), "passes": "0..N-1, 0..N-1, N-1..0", "N": ns}
+	})
+	runC14Pool(x)
+}
+
+func runC14Pool(x *core.Ctx) {
 	pf := c14Frames()
 	ops := c14Alphabet(pf)
 	depth := 3
@@ -391,6 +578,10 @@ func runC14(x *core.Ctx) {
 }
 
 func replayC14(c core.Case) *core.Finding {
+	if c.Harness == "c14.pressure" {
+		f, _ := c14Pressure(byte(paramInt(c.Params, "type")), paramInt(c.Params, "n"))
+		return f
+	}
 	pf := c14Frames()
 	var g0 digest.Sum
 	if g := globalsRoots(); g != nil {
